@@ -25,14 +25,18 @@
 (*                  S->C replay;                                           *)
 (*    KeyMode = "pyeq":  the table is a python dict keyed by the tuple     *)
 (*                  itself, i.e. by == / hash, under which 1 == True ==    *)
-(*                  1.0.  TLC shows that ExactArgs then fails; the replay  *)
-(*                  uses this variant only to NAME the root cause when the *)
-(*                  code deviates from the oracle.                         *)
+(*                  1.0.  TLC shows that ExactArgs then fails (spec mutant *)
+(*                  = the code as written).                                *)
+(* Next to the judged table the model steps a SHADOW table that is always  *)
+(* keyed by python equality (variables ending in P).  It takes no part in  *)
+(* the invariants; its predictions are emitted with every behaviour so     *)
+(* that, when the code deviates from the oracle, the replay can tell       *)
+(* whether it behaves like the python-equality-key table (root cause).     *)
 (*                                                                         *)
 (* Objects are numbered in allocation order; hist records, for every step, *)
 (* what the model predicts the python side observes: the object returned   *)
 (* (obj), the arguments it carries (args) and the number of entries of the *)
-(* weak table (nlive).                                                     *)
+(* weak table (nlive); objP / argsP / nliveP are the shadow's.             *)
 (***************************************************************************)
 EXTENDS Naturals, Sequences, FiniteSets, TLC, Json
 
@@ -49,57 +53,74 @@ VARIABLES heap,     \* object number -> canonical arguments it carries (live obj
           handles,  \* the user's references: sequence of object numbers, 0 = dropped
           pickles,  \* sequence of canonical argument tuples
           nextid,
+          heapP, tableP, handlesP, picklesP, nextidP,     \* shadow: python-equality keys
           hist
 
-vars == <<heap, table, handles, pickles, nextid, hist>>
+vars == <<heap, table, handles, pickles, nextid, heapP, tableP, handlesP, picklesP, nextidP, hist>>
 
 Key(c) == IF KeyMode = "exact" THEN c ELSE PyOf[c]
 Live == DOMAIN heap
 Referenced(hs) == {hs[k] : k \in DOMAIN hs} \ {0}
 Restrict(f, D) == [x \in D |-> f[x]]
-
 EmptyF == [x \in {} |-> 0]
-Init == /\ heap = EmptyF /\ table = EmptyF /\ handles = <<>> /\ pickles = <<>>
-        /\ nextid = 1 /\ hist = <<>>
 
-\* the lookup shared by a constructor call and unpickling
-Obtain(opname, a, c) ==
-    LET key == Key(c)
-        hit == key \in DOMAIN table
-        obj == IF hit THEN table[key] ELSE nextid
+Init == /\ heap = EmptyF /\ table = EmptyF /\ handles = <<>> /\ pickles = <<>> /\ nextid = 1
+        /\ heapP = EmptyF /\ tableP = EmptyF /\ handlesP = <<>> /\ picklesP = <<>> /\ nextidP = 1
+        /\ hist = <<>>
+
+\* the dictionary lookup of _new / __call__: hit -> stored object, miss -> allocate and store
+Lookup(tb, hp, nid, key, c) ==
+    LET hit == key \in DOMAIN tb
+    IN [obj |-> IF hit THEN tb[key] ELSE nid,
+        heap |-> IF hit THEN hp ELSE hp @@ (nid :> c),
+        table |-> IF hit THEN tb ELSE tb @@ (key :> nid),
+        nextid |-> IF hit THEN nid ELSE nid + 1]
+
+\* shared by a constructor call and unpickling; c / cP: the argument tuple presented to the table / to the shadow
+Obtain(opname, a, c, cP) ==
+    LET m == Lookup(table, heap, nextid, Key(c), c)
+        s == Lookup(tableP, heapP, nextidP, PyOf[cP], cP)
         existing == {o \in Live : heap[o] = c}
     IN /\ Len(hist) < MaxOps
-       /\ heap' = IF hit THEN heap ELSE heap @@ (nextid :> c)
-       /\ table' = IF hit THEN table ELSE table @@ (key :> nextid)
-       /\ nextid' = IF hit THEN nextid ELSE nextid + 1
-       /\ handles' = Append(handles, obj)
-       /\ hist' = Append(hist, [op |-> opname, a |-> a, k |-> Len(handles) + 1, obj |-> obj,
-                                want |-> c, args |-> heap'[obj], nlive |-> Cardinality(DOMAIN table'),
-                                existing |-> IF existing = {} THEN 0 ELSE CHOOSE o \in existing : TRUE])
-       /\ UNCHANGED pickles
+       /\ heap' = m.heap /\ table' = m.table /\ nextid' = m.nextid
+       /\ handles' = Append(handles, m.obj)
+       /\ heapP' = s.heap /\ tableP' = s.table /\ nextidP' = s.nextid
+       /\ handlesP' = Append(handlesP, s.obj)
+       /\ hist' = Append(hist, [op |-> opname, a |-> a, k |-> Len(handles) + 1,
+                                obj |-> m.obj, want |-> c, args |-> m.heap[m.obj], nlive |-> Cardinality(DOMAIN m.table),
+                                existing |-> IF existing = {} THEN 0 ELSE CHOOSE o \in existing : TRUE,
+                                objP |-> s.obj, argsP |-> s.heap[s.obj], nliveP |-> Cardinality(DOMAIN s.table)])
+       /\ UNCHANGED <<pickles, picklesP>>
 
-Construct(a) == a \in Args /\ Obtain("new", a, CanonOf[a])
+Construct(a) == a \in Args /\ Obtain("new", a, CanonOf[a], CanonOf[a])
 
 Load(j) == /\ j \in DOMAIN pickles
-           /\ Obtain("load", "", pickles[j])
+           /\ Obtain("load", "", pickles[j], picklesP[j])
 
 Drop(k) == /\ Len(hist) < MaxOps
            /\ k \in DOMAIN handles /\ handles[k] # 0
            /\ handles' = [handles EXCEPT ![k] = 0]
+           /\ handlesP' = [handlesP EXCEPT ![k] = 0]
            /\ LET keep == Live \cap Referenced(handles')
+                  keepP == DOMAIN heapP \cap Referenced(handlesP')
               IN /\ heap' = Restrict(heap, keep)
                  /\ table' = Restrict(table, {key \in DOMAIN table : table[key] \in keep})
+                 /\ heapP' = Restrict(heapP, keepP)
+                 /\ tableP' = Restrict(tableP, {key \in DOMAIN tableP : tableP[key] \in keepP})
            /\ hist' = Append(hist, [op |-> "drop", a |-> "", k |-> k, obj |-> handles[k], want |-> "", args |-> "",
-                                    nlive |-> Cardinality(DOMAIN table'), existing |-> 0])
-           /\ UNCHANGED <<pickles, nextid>>
+                                    nlive |-> Cardinality(DOMAIN table'), existing |-> 0,
+                                    objP |-> handlesP[k], argsP |-> "", nliveP |-> Cardinality(DOMAIN tableP')])
+           /\ UNCHANGED <<pickles, nextid, picklesP, nextidP>>
 
 Dump(k) == /\ Len(hist) < MaxOps
            /\ Len(pickles) < MaxPickles
            /\ k \in DOMAIN handles /\ handles[k] # 0
            /\ pickles' = Append(pickles, heap[handles[k]])
+           /\ picklesP' = Append(picklesP, heapP[handlesP[k]])
            /\ hist' = Append(hist, [op |-> "dump", a |-> "", k |-> k, obj |-> handles[k], want |-> "", args |-> heap[handles[k]],
-                                    nlive |-> Cardinality(DOMAIN table), existing |-> 0])
-           /\ UNCHANGED <<heap, table, handles, nextid>>
+                                    nlive |-> Cardinality(DOMAIN table), existing |-> 0,
+                                    objP |-> handlesP[k], argsP |-> heapP[handlesP[k]], nliveP |-> Cardinality(DOMAIN tableP)])
+           /\ UNCHANGED <<heap, table, handles, nextid, heapP, tableP, handlesP, nextidP>>
 
 Next == \/ \E a \in Args : Construct(a)
         \/ \E j \in 1..MaxPickles : Load(j)
